@@ -12,7 +12,38 @@ TIMEOUT = "__timeout__"
 CRASH = "__worker_crashed__"
 
 
-def _worker(conn, func, init):
+def _in_fresh_fork(func, state, item, timeout):
+    """func(state, item) in a child forked from this (pristine) worker: nothing a task does survives it."""
+    import pickle
+    import signal
+    r, w = os.pipe()
+    pid = os.fork()
+    if pid == 0:
+        try:
+            os.close(r)
+            signal.alarm(max(1, int(timeout)))      # the worker may be killed; the child must not outlive its budget
+            try:
+                res = func(state, item)
+            except BaseException as exc:  # noqa: BLE001
+                res = ("__task_raised__", f"{type(exc).__name__}: {exc}")
+            try:
+                data = pickle.dumps(res)
+            except Exception:
+                data = pickle.dumps(("__task_raised__", "unpicklable result"))
+            with os.fdopen(w, "wb") as out:
+                out.write(data)
+        finally:
+            os._exit(0)
+    os.close(w)
+    with os.fdopen(r, "rb") as inp:
+        data = inp.read()
+    os.waitpid(pid, 0)
+    if not data:
+        return ("__task_raised__", "fresh fork died (time limit or crash)")
+    return pickle.loads(data)
+
+
+def _worker(conn, func, init, fork_per_task=False, timeout=60.0):
     try:
         state = init() if init else None
     except BaseException:  # noqa: BLE001
@@ -27,7 +58,7 @@ def _worker(conn, func, init):
             return
         idx, item = msg
         try:
-            res = func(state, item)
+            res = _in_fresh_fork(func, state, item, timeout) if fork_per_task else func(state, item)
         except BaseException as exc:  # noqa: BLE001 - the task function is expected to catch what it wants
             if isinstance(exc, KeyboardInterrupt):
                 return
@@ -39,8 +70,11 @@ def _worker(conn, func, init):
 
 
 def run_tasks(func: Callable[[Any, Any], Any], items: Sequence[Any], *, init: Callable[[], Any] = None,
-              procs: int = 16, timeout: float = 60.0) -> List[Any]:
-    """func(state, item) for every item in fresh forked workers; a task over `timeout` seconds yields TIMEOUT."""
+              procs: int = 16, timeout: float = 60.0, fork_per_task: bool = False) -> List[Any]:
+    """func(state, item) for every item in fresh forked workers; a task over `timeout` seconds yields TIMEOUT.
+
+    fork_per_task: the workers only run init(); every task runs in a child forked from such a pristine worker,
+    so no task sees anything (caches, module-level memos, patched attributes) a previous task left behind."""
     ctx = mp.get_context("fork")
     n = max(1, min(procs, len(items)))
     results: List[Any] = [None] * len(items)
@@ -49,7 +83,7 @@ def run_tasks(func: Callable[[Any, Any], Any], items: Sequence[Any], *, init: Ca
 
     def spawn():
         parent, child = ctx.Pipe()
-        p = ctx.Process(target=_worker, args=(child, func, init), daemon=True)
+        p = ctx.Process(target=_worker, args=(child, func, init, fork_per_task, timeout), daemon=True)
         p.start()
         child.close()
         workers[parent] = {"proc": p, "task": None, "start": 0.0}
